@@ -533,3 +533,11 @@ def replay(case, seed):
     system.dispose(s)
     shutil.rmtree(system.home, ignore_errors=True)
     return r['violations']
+
+# a subset of the units is executed again in other environments (child interpreters): see core.run_variants
+ENV_VARIANTS = [{'name': 'python-O', 'flags': ['-O']}]
+
+def variant_units(tier, seed, name):
+    pred = lambda uid, p: p.get('kind') == 'dfs' and p.get('n') in (4, 5)
+    return [u for u in units('quick', seed) if pred(u[0], u[1])]
+
